@@ -105,6 +105,28 @@ def nasty_quick_cases(rng, n):
     return out
 
 
+def chunk_name_order_cases(rng, n=2):
+    """
+    cell and chunk counts for which the per-chunk files '<r0>_<r1>_...' sort
+    as text with the first chunk first and the last chunk last but the
+    middle scrambled (100 cells / chunk 5, 1000 / 10): an "already in
+    order" test that looks at the ends only would be fooled
+    """
+    out = []
+    for k in range(n):
+        d = int(rng.integers(2, 4))
+        spec = _common_random(rng, d, 6)
+        spec.update({'n_levels': d, 'n_leaves': int(rng.integers(3, 8)),
+                     'seed': int(rng.integers(0, 2 ** 31)),
+                     'n_cells': [100, 1000][k % 2],
+                     'chunk_size': [5, 10][k % 2],
+                     'n_processors': int(rng.integers(1, 4)),
+                     'bootstrap_iteration': 2, 'n_genes': 20,
+                     'cell_id_style': 'plain', 'n_extra_genes': None})
+        out.append(spec)
+    return out
+
+
 def exhaustive_shape_cases(rng, per_shape_variants=True):
     """all 470 shapes x {plain, flatten, each droppable level}"""
     shapes = shape_info()
